@@ -249,10 +249,19 @@ func appendSnapshotFlavors(b []byte, s *slip.Scope) []byte {
 			fa = append(fa, f)
 		}
 	}
-	// A flavor has more ancestors than any flavor it inherits from so this
-	// order puts components first and is the same for every snapshot.
+	// Leaving aside vanilla-flavor, which :no-vanilla-flavor drops, a flavor
+	// has more ancestors than any flavor it inherits from so this order puts
+	// components first and is the same for every snapshot.
+	ancestors := func(f *flavors.Flavor) (n int) {
+		for _, c := range f.InheritsList() {
+			if c.Name() != "vanilla-flavor" {
+				n++
+			}
+		}
+		return
+	}
 	sort.Slice(fa, func(i, j int) bool {
-		di, dj := len(fa[i].InheritsList()), len(fa[j].InheritsList())
+		di, dj := ancestors(fa[i]), ancestors(fa[j])
 		if di != dj {
 			return di < dj
 		}
